@@ -10,6 +10,15 @@ def run(prop, tier, seed, only=None, jobs=None, include=()):
     res = runner.run_property(prop, tier=tier, seed=seed, only=only, jobs=jobs, include=include)
     items = []
     notes = []
+    tot_runs = sum(r["falsifier"]["runs"] for r in res)
+    tot_checked = sum(r["falsifier"]["checked"] for r in res)
+    lemmas = sorted({l for r in res for l in r.get("lean_lemmas", [])} |
+                    {l for r in res for o in r["obligations"] for l in (o.get("lemmas") or [])})
+    notes.append(f"BOUNDED python replays on the real libraries this run: {tot_runs} contract executions, "
+                 f"{tot_checked} oracle comparisons (seeded; never counted as proved)")
+    notes.append("Lean lemmas instantiated: " + ", ".join("WS." + l for l in lemmas))
+    notes.append(f"contracts executed symbolically: {len(res)} (contract x scenario), paths explored: "
+                 f"{sum(r.get('paths') or 0 for r in res)}, solver time {sum(r.get('solver_time_s') or 0 for r in res):.1f}s")
     for r in res:
         q = r["contract"]
         if r.get("crash"):
